@@ -135,7 +135,7 @@ func (r *runner) runHarness(hs harnessSpec) (*harnessResult, error) {
 			hr.Violations = append(hr.Violations, v)
 			continue
 		}
-		nres, err := r.nativeRun(hs.Pkg, []nativeCase{c}, hangMs)
+		nres, err := r.nativeRunOpt(hs.Pkg, []nativeCase{c}, hangMs, hs.Race)
 		if err != nil {
 			return nil, fmt.Errorf("native replay: %v", err)
 		}
@@ -153,6 +153,11 @@ func (r *runner) runHarness(hs harnessSpec) (*harnessResult, error) {
 				v.Reproduced = nr.Outcome == "assert" && nr.Detail == pr.Detail
 				if nr.Outcome == "panic" || nr.Outcome == "hang" {
 					v.Reproduced = true // even worse natively
+				}
+				if hs.Race && (nr.Outcome == "race" || nr.Outcome == "assert") {
+					// the symbolic side reports a store to shared state; natively that shows as a data race or as a
+					// concurrent call whose result differs from its solo result
+					v.Reproduced = true
 				}
 			case "panic":
 				v.Reproduced = nr.Outcome == "panic"
@@ -181,7 +186,7 @@ func (r *runner) runHarness(hs harnessSpec) (*harnessResult, error) {
 			}
 			cases = append(cases, nativeCase{ID: fmt.Sprintf("s%d", i), Harness: hs.Fn, Params: params, Inputs: pr.Inputs})
 		}
-		nres, err := r.nativeRun(hs.Pkg, cases, hangMs)
+		nres, err := r.nativeRunOpt(hs.Pkg, cases, hangMs, hs.Race)
 		if err != nil {
 			return nil, fmt.Errorf("native validation: %v", err)
 		}
@@ -252,10 +257,21 @@ func compareNative(pr *interp.PathResult, nr nativeResult) string {
 			return fmt.Sprintf("observation %q: engine %q, native %q", pr.Obs[i].Label, pr.Obs[i].Value, nr.Obs[i].Value)
 		}
 	}
-	if strings.Join(nr.Covers, ",") != strings.Join(pr.Covers, ",") {
+	if strings.Join(visibleCovers(nr.Covers), ",") != strings.Join(visibleCovers(pr.Covers), ",") {
 		return fmt.Sprintf("covers: engine %v native %v", pr.Covers, nr.Covers)
 	}
 	return ""
+}
+
+// visibleCovers drops labels that only the engine can produce (prefix "engine-").
+func visibleCovers(cs []string) []string {
+	var out []string
+	for _, c := range cs {
+		if !strings.HasPrefix(c, "engine-") {
+			out = append(out, c)
+		}
+	}
+	return out
 }
 
 func firstLine(s string) string {
@@ -321,6 +337,12 @@ func writeJSON(path string, v interface{}) error {
 
 // nativeRun compiles the harness package with the native shims and runs the given cases through `go test`.
 func (r *runner) nativeRun(relPkg string, cases []nativeCase, hangMs int) (map[string]nativeResult, error) {
+	return r.nativeRunOpt(relPkg, cases, hangMs, false)
+}
+
+// nativeRunOpt: with race=true the test binary is built with the race detector; a reported data race marks every
+// case of that run as outcome "race".
+func (r *runner) nativeRunOpt(relPkg string, cases []nativeCase, hangMs int, race bool) (map[string]nativeResult, error) {
 	out := map[string]nativeResult{}
 	pp := r.pkgPath(relPkg)
 	tmp, err := os.MkdirTemp("", "symgo-replay")
@@ -377,17 +399,24 @@ func (r *runner) nativeRun(relPkg string, cases []nativeCase, hangMs int) (map[s
 		writeJSON(casePath, map[string]interface{}{"cases": remaining, "timeout_ms": hangMs})
 		// the address-space limit turns a runaway allocation of a counterexample into a clean crash of the test binary
 		cmd := exec.Command("sh", "-c", "ulimit -v 24000000; exec go test -tags 'verif verifnative' -overlay "+ovPath+" -run '^TestVerifReplay$' -count=1 -v -vet=off -timeout 1200s "+pp)
+		if race {
+			cmd = exec.Command("go", "test", "-race", "-tags", "verif verifnative", "-overlay", ovPath, "-run", "^TestVerifReplay$", "-count=1", "-v", "-vet=off", "-timeout", "1200s", pp)
+		}
 		cmd.Dir = r.repo
 		cmd.Env = append(goEnv(), "VERIF_REPLAY_FILE="+casePath)
+		if race {
+			cmd.Env = append(cmd.Env, "CGO_ENABLED=1")
+		}
 		var stdout, stderr bytes.Buffer
 		cmd.Stdout = &stdout
 		cmd.Stderr = &stderr
 		runErr := cmd.Run()
+		outStr, errStr := stdout.String(), stderr.String()
 		got := 0
 		if os.Getenv("SYMGO_DEBUG_NATIVE") != "" {
-			fmt.Fprintf(os.Stderr, "native run: err=%v\nstdout:\n%s\nstderr:\n%s\n", runErr, truncate(stdout.String(), 4000), truncate(stderr.String(), 4000))
+			fmt.Fprintf(os.Stderr, "native run: err=%v\nstdout:\n%s\nstderr:\n%s\n", runErr, truncate(outStr, 4000), truncate(errStr, 4000))
 		}
-		sc := bufio.NewScanner(&stdout)
+		sc := bufio.NewScanner(strings.NewReader(outStr))
 		sc.Buffer(make([]byte, 1<<20), 1<<26)
 		for sc.Scan() {
 			line := sc.Text()
@@ -399,9 +428,20 @@ func (r *runner) nativeRun(relPkg string, cases []nativeCase, hangMs int) (map[s
 				}
 			}
 		}
+		if race && (strings.Contains(outStr, "WARNING: DATA RACE") || strings.Contains(errStr, "WARNING: DATA RACE")) {
+			where := ""
+			txt := outStr + errStr
+			if i := strings.Index(txt, "WARNING: DATA RACE"); i >= 0 {
+				where = truncate(txt[i:], 700)
+			}
+			for _, c := range remaining {
+				out[c.ID] = nativeResult{ID: c.ID, Outcome: "race", Detail: where}
+			}
+			return out, nil
+		}
 		if got == 0 && runErr != nil {
 			// build failure or immediate crash
-			txt := stdout.String() + stderr.String()
+			txt := outStr + errStr
 			if strings.Contains(txt, "[build failed]") || strings.Contains(txt, "cannot find") || strings.Contains(txt, "syntax error") {
 				return nil, fmt.Errorf("native build failed:\n%s", txt)
 			}
